@@ -8,6 +8,8 @@ import (
 	"strings"
 	"testing"
 
+	"github.com/nspcc-dev/neo-go/pkg/core/native/nativenames"
+	"github.com/nspcc-dev/neo-go/pkg/crypto/keys"
 	"github.com/nspcc-dev/neo-go/pkg/neotest"
 	"github.com/nspcc-dev/neo-go/pkg/util"
 	"github.com/nspcc-dev/neo-go/pkg/vm/stackitem"
@@ -26,6 +28,7 @@ type balEnv struct {
 	committee                    neotest.Signer // the Alphabet account (2n/3+1 of n)
 	majority                     neotest.Signer // the committee-majority account (n/2+1 of n); = Alphabet for n in {1,2,4}
 	member                       neotest.Signer // one committee member alone
+	former                       neotest.Signer // the Alphabet account before the last committee re-election (nil: none yet)
 	n                            int
 	extra                        int      // number of extra lock addresses in the pool
 	addrs                        [][]byte // pool of addresses (observed after every op)
@@ -40,6 +43,7 @@ type balOp struct {
 	Details []byte   `json:"details,omitempty"`
 	Until   int64    `json:"until,omitempty"`
 	Epoch   int64    `json:"epoch,omitempty"`
+	FromNull bool    `json:"from_null,omitempty"` // pass Null (not an empty byte string) as `from`
 	Signers []int    `json:"signers"` // indices into users; -1 = Alphabet account, -2 = committee-majority account, -3 = one committee member
 }
 
@@ -152,11 +156,40 @@ func (b *balEnv) signerList(idx []int) []neotest.Signer {
 			out = append(out, b.majority)
 		} else if i == -3 {
 			out = append(out, b.member)
+		} else if i == -4 {
+			if b.former != nil {
+				out = append(out, b.former)
+			} else {
+				out = append(out, b.committee)
+			}
 		} else {
 			out = append(out, b.users[i])
 		}
 	}
 	return out
+}
+
+// rotateCommittee re-elects the (one-member) committee of a single-validator chain: a new candidate
+// gets the NEO votes, so neo.GetCommittee() - and with it the Alphabet account - changes.  The former
+// Alphabet account stays available as signer -4.
+func (b *balEnv) rotateCommittee() {
+	t, e := b.T, b.E
+	neoInv := e.ValidatorInvoker(e.NativeHash(t, nativenames.Neo))
+	cand := e.NewAccount(t, 2000_0000_0000)
+	voter := e.NewAccount(t, 10_0000_0000)
+	candPub := cand.(neotest.SingleSigner).Account().PublicKey()
+	neoInv.Invoke(t, true, "transfer", e.Validator.ScriptHash(), voter.ScriptHash(), 60_000_000, nil)
+	neoInv.WithSigners(cand).Invoke(t, true, "registerCandidate", candPub.Bytes())
+	neoInv.WithSigners(voter).Invoke(t, true, "vote", voter.ScriptHash(), candPub.Bytes())
+	e.GenerateNewBlocks(t, 2)
+	newAcc := wallet.NewAccountFromPrivateKey(cand.(neotest.SingleSigner).Account().PrivateKey())
+	require.NoError(t, newAcc.ConvertMultisig(1, keys.PublicKeys{candPub}))
+	newAlphabet := neotest.NewMultiSigner(newAcc)
+	require.NotEqual(t, b.committee.ScriptHash(), newAlphabet.ScriptHash())
+	e.ValidatorInvoker(e.NativeHash(t, nativenames.Gas)).Invoke(t, true, "transfer",
+		e.Validator.ScriptHash(), newAlphabet.ScriptHash(), int64(1000_0000_0000), nil)
+	b.former = b.committee
+	b.committee, b.majority, b.member = newAlphabet, newAlphabet, newAlphabet
 }
 
 func nilIfEmpty(x []byte) any {
@@ -171,9 +204,17 @@ func (b *balEnv) exec(op balOp) balObs {
 	var r Result
 	switch op.Kind {
 	case "transfer":
-		r = b.Invoke(sg, b.balance, "transfer", op.From, op.To, op.Amount, nil)
+		if op.FromNull {
+			r = b.Invoke(sg, b.balance, "transfer", nil, op.To, op.Amount, nil)
+		} else {
+			r = b.Invoke(sg, b.balance, "transfer", op.From, op.To, op.Amount, nil)
+		}
 	case "callerTransfer":
-		r = b.Invoke(sg, b.caller, "call", b.balance, "transfer", []any{op.From, op.To, op.Amount, nil})
+		if op.FromNull {
+			r = b.Invoke(sg, b.caller, "call", b.balance, "transfer", []any{nil, op.To, op.Amount, nil})
+		} else {
+			r = b.Invoke(sg, b.caller, "call", b.balance, "transfer", []any{op.From, op.To, op.Amount, nil})
+		}
 	case "transferX":
 		r = b.Invoke(sg, b.balance, "transferX", op.From, op.To, op.Amount, op.Details)
 	case "mint":
@@ -238,6 +279,13 @@ func (b *balEnv) witnessed(op balOp) (hs [][]byte, alpha bool) {
 		} else if i == -3 {
 			alpha = alpha || b.member.ScriptHash() == b.committee.ScriptHash()
 			hs = append(hs, b.member.ScriptHash().BytesBE())
+		} else if i == -4 {
+			f := b.former
+			if f == nil {
+				f = b.committee
+			}
+			alpha = alpha || f.ScriptHash() == b.committee.ScriptHash()
+			hs = append(hs, f.ScriptHash().BytesBE())
 		} else {
 			hs = append(hs, b.users[i].ScriptHash().BytesBE())
 		}
@@ -405,6 +453,8 @@ func (g *balGen) next(step int) balOp {
 		}
 		if r.Intn(10) == 0 {
 			f = g.anyAddr()
+		} else if r.Intn(25) == 0 {
+			f = balIdxEmpty + r.Intn(3) // empty / short / long sender
 		}
 		am := pickAmount(r, g.bal[f])
 		var sg []int
@@ -521,6 +571,35 @@ func balCorpus(b *balEnv) [][]balOp {
 			{Kind: "callerTransfer", From: b.caller.BytesBE(), To: B, Amount: n(3), Signers: []int{2}},
 			{Kind: "transfer", From: b.caller.BytesBE(), To: B, Amount: n(1), Signers: []int{2}},
 		},
+		{ // committee re-election between Alphabet operations: the FORMER Alphabet account (signer -4) is nobody afterwards
+			{Kind: "mint", To: A, Amount: n(1000), Details: []byte{1}, Signers: al},
+			{Kind: "transferX", From: A, To: B, Amount: n(10), Details: []byte{2}, Signers: al},
+			{Kind: "rotate"},
+			{Kind: "transferX", From: A, To: B, Amount: n(300), Details: []byte{3}, Signers: []int{-4}},
+			{Kind: "burn", From: A, Amount: n(300), Details: []byte{3}, Signers: []int{-4}},
+			{Kind: "lock", From: A, To: L, Amount: n(300), Until: 9, Details: []byte{3}, Signers: []int{-4}},
+			{Kind: "mint", To: B, Amount: n(5), Details: []byte{3}, Signers: []int{-4}},
+			{Kind: "newEpoch", Epoch: 3, Signers: []int{-4}},
+			{Kind: "burn", From: A, Amount: n(1), Details: []byte{4}, Signers: al},
+			{Kind: "newEpoch", Epoch: 3, Signers: al},
+			{Kind: "transferX", From: A, To: B, Amount: n(300), Details: []byte{3}, Signers: []int{-4}},
+		},
+		{ // the mint path (empty sender) is for the Alphabet's mint only: a public transfer from an empty / short sender must be refused
+			{Kind: "mint", To: A, Amount: n(1000), Details: []byte{1}, Signers: al},
+			{Kind: "transfer", From: []byte{}, To: B, Amount: n(5000), Signers: []int{1}},
+			{Kind: "transfer", FromNull: true, To: B, Amount: n(5000), Signers: []int{1}},
+			{Kind: "callerTransfer", FromNull: true, To: B, Amount: n(9), Signers: []int{1}},
+			{Kind: "transfer", FromNull: true, To: B, Amount: n(9), Signers: al},
+			{Kind: "transfer", From: []byte{}, To: B, Amount: n(0), Signers: []int{1}},
+			{Kind: "callerTransfer", From: []byte{}, To: B, Amount: n(7), Signers: []int{1}},
+			{Kind: "transfer", From: []byte{1, 2, 3, 4, 5}, To: B, Amount: n(7), Signers: []int{1}},
+			{Kind: "transfer", From: []byte{}, To: B, Amount: n(7), Signers: al},
+			{Kind: "transfer", From: A, To: []byte{}, Amount: n(7), Signers: []int{0}},
+			{Kind: "transferX", From: A, To: B, Amount: n(0), Details: []byte{2}, Signers: al},
+			{Kind: "burn", From: A, Amount: n(0), Details: []byte{2}, Signers: al},
+			{Kind: "lock", From: A, To: L, Amount: n(0), Until: 3, Details: []byte{2}, Signers: al},
+			{Kind: "transfer", From: A, To: B, Amount: n(0), Signers: []int{0}},
+		},
 		{ // funds held at contract addresses nobody can witness (the Balance contract itself, Netmap)
 			{Kind: "mint", To: b.balance.BytesBE(), Amount: n(700), Details: []byte{1}, Signers: al},
 			{Kind: "mint", To: b.netmap.BytesBE(), Amount: n(300), Details: []byte{1}, Signers: al},
@@ -581,11 +660,12 @@ func balCorpus(b *balEnv) [][]balOp {
 // balCorpusExtra: number of extra lock addresses corpus history ci needs.
 func balCorpusExtra(ci int) int {
 	switch ci {
-	case 8:
+	case 10:
 		return 4
-	case 9:
+	case 11:
 		return 41
 	}
+	// NOTE: keep in step with the position of the two balManyLocks entries in balCorpus
 	return 0
 }
 
@@ -871,6 +951,12 @@ func runBalanceFamily(t *testing.T, prop string) {
 			op, ok := ops(b, i, g)
 			if !ok {
 				break
+			}
+			if op.Kind == "rotate" {
+				if b.n <= 1 {
+					b.rotateCommittee()
+				}
+				continue
 			}
 			o := b.exec(op)
 			g.bal = o.balances
